@@ -63,6 +63,8 @@ BASES = {
 }
 # row items whose missingness differs from one another, reduced alphabet, 4-5 events
 BASES["mr_x_mr_ov_deep"] = (S.schema2("mr_x_mr_ov_deep", N2, M2, overlaps=True), (1,), (None,), [(None, None)], 4, 5, (1,))
+# mean responses need two valued respondents per cell before Welch's test is defined: one row, reduced alphabet, deeper
+BASES["means_deep"] = (S.schema2("means_deep", A2, B3, numeric=dict(MEANS)), (1,), (None,), [(None, None)], 5, 6, (1,))
 SCHEMAS = {k: v[0] for k, v in BASES.items()}
 PROFILES = {}
 for _k, _v in BASES.items():
@@ -73,6 +75,8 @@ for _k, _v in BASES.items():
 def _cfgs(name):
     if name == "mr_x_mr_ov_deep":
         return [(0, 1, 0), (0, 3, 0), (0, 4, 2)]
+    if name == "means_deep":
+        return [(0, 4, 0), (0, 2, 0), (0, 3, 2)]
     out = []
     ins = BASES[name][3]
     mr_cols = BASES[name][0].vars[1].kind == "MR"
@@ -87,6 +91,7 @@ def _cfgs(name):
 
 PROFILES["mr_x_mr_ov_deep"] = [(((n, m), 1, None), 1) for n in ((1, 0), (0, 1), (1, -1), (-1, 1), (1, 1))
                                for m in ((1, 0), (0, 1), (1, 1))]
+PROFILES["means_deep"] = [(((1, c), 1, x), 1) for c in (1, 2, 3) for x in (1, 3, 4)]
 CONFIGS = {k: _cfgs(k) for k in BASES}
 
 
